@@ -18,7 +18,7 @@ var pkgGroups = map[string]struct {
 	"grpc":         {[]string{"C14"}, []string{"pkg/blobstore/grpcservers", "pkg/blobstore/grpcclients"}},
 	"replication":  {[]string{"C17", "C11"}, []string{"pkg/blobstore/replication", "pkg/blobstore/readcaching", "pkg/blobstore/readfallback"}},
 	"top":          {[]string{"C18", "C19", "C17", "C08", "C13"}, []string{"pkg/blobstore", "pkg/auth"}},
-	"digest":       {[]string{"C20", "C19", "C10", "C09", "C13", "C14", "C17", "C11", "C18"}, []string{"pkg/digest", "pkg/util"}},
+	"digest":       {[]string{"C20", "C19", "C10", "C09", "C13", "C14", "C17", "C11", "C18", "C12"}, []string{"pkg/digest", "pkg/util"}},
 	"config":       {[]string{"C02", "C03", "C07", "C08", "C11", "C12", "C17", "C18", "C19"}, []string{"pkg/blobstore/configuration", "pkg/auth/configuration"}},
 }
 
